@@ -411,6 +411,24 @@ func (ck *checker) sig(site, what string) string { return ck.prop + "/" + site +
 // universe (present and absent). A panic of the code under test on such a read is a violation because the
 // model says the read must succeed.
 func (ck *checker) contents(site, where string, s stypes.KVStore, m kv.Model, universe [][]byte) {
+	// Point reads first: they run on this goroutine, so a panic of the code under test (e.g. "Value missing for
+	// hash") is recovered and reported. The IAVL iterator walks the tree on its own goroutine, where such a panic
+	// would kill the process; the Gets of all present keys visit every node of the tree beforehand.
+	for _, k := range universe {
+		got, has, p := get(s, k)
+		ck.reads++
+		if p != nil {
+			ck.c.Violation(ck.sig(site, "read-panics"), "%s: get/has %x panicked: %v", where, k, p)
+			return
+		}
+		want, ok := m[string(k)]
+		if ok != (got != nil) || !bytes.Equal(got, want) {
+			ck.c.Violation(ck.sig(site, "get-differs-from-model"), "%s: get %x: got %x (nil=%v) want %x (present=%v)", where, k, got, got == nil, want, ok)
+		}
+		if has != ok {
+			ck.c.Violation(ck.sig(site, "has-differs-from-model"), "%s: has %x: got %v want %v", where, k, has, ok)
+		}
+	}
 	for _, rev := range []bool{false, true} {
 		got, p := scan(s, nil, nil, rev)
 		ck.reads++
@@ -421,21 +439,6 @@ func (ck *checker) contents(site, where string, s stypes.KVStore, m kv.Model, un
 		want := m.Range(nil, nil, rev)
 		if !kv.EqualPairs(got, want) {
 			ck.c.Violation(ck.sig(site, "scan-differs-from-model"), "%s: full scan rev=%v: got %s want %s", where, rev, kv.Render(got), kv.Render(want))
-		}
-	}
-	for _, k := range universe {
-		got, has, p := get(s, k)
-		ck.reads++
-		if p != nil {
-			ck.c.Violation(ck.sig(site, "read-panics"), "%s: get/has %x panicked: %v", where, k, p)
-			continue
-		}
-		want, ok := m[string(k)]
-		if ok != (got != nil) || !bytes.Equal(got, want) {
-			ck.c.Violation(ck.sig(site, "get-differs-from-model"), "%s: get %x: got %x (nil=%v) want %x (present=%v)", where, k, got, got == nil, want, ok)
-		}
-		if has != ok {
-			ck.c.Violation(ck.sig(site, "has-differs-from-model"), "%s: has %x: got %v want %v", where, k, has, ok)
 		}
 	}
 }
